@@ -21,7 +21,26 @@ def nt_cursor(suite, case, impl):
     return any(l.startswith("impl ok") for l in case["lines"]) and len(case["lines"]) >= 4
 
 
+def nt_gates(suite, case, impl):
+    # non-trivial: the gate both held something back and forwarded something, or raised the hold-off error
+    fw = [l for l in case["lines"] if l.startswith("impl ")]
+    vals = set(l.split()[-1] for l in fw) | set(l.split()[1] for l in fw)
+    return len(vals) >= 2 and len(fw) >= 3
+
+
 PROPS = {
+    "C17": {
+        "suites": [("gates", 4000, 80000)],
+        "props": ["C17"],
+        "level": "proof",
+        "technique": "Lean 4 theorems (latch fold = suffix, by induction over the input) + differential correspondence of all gates/gators on generated event sequences",
+        "level_text": "forwarded_eq_suffix proves, for every input sequence, gate kind, target, gate type, hold-off limit and first-streamable-block value, that what reaches the wrapped handler is exactly the suffix starting at/after the first triggering event; holdoff_spec places the hold-off error; irreversible_ignores, below_first_streamable_inclusive, gator_spec, tripper_once cover the remaining clauses. The same suffixSpec/holdErrs functions are evaluated on the implementation's forwarded list on every run.",
+        "level_note": LEVEL_NOTE_COMMON + "wall clock replaced by an explicit age parameter (harness uses far-past/far-future block times); the wrapped handler does not fail; obj is always a *ForkableObject for the irreversible gates (the code type-asserts it).",
+        "rule": "cases = one gate/gator/filter/tripper instance fed 1-14 generated events (steps New/Undo/Irreversible/NewIrreversible/Stalled, ids incl. the target repeated/absent/empty/zero-id, numbers around the target incl. repeats and decreases, far-past and future block times; targets 0-11, fsb 0-3, hold-off 0/1/2/3/5/15000, inclusive/exclusive); distinct = sha1 of header+events; non-trivial = at least 3 events and at least two different outcomes (held back / forwarded / hold-off error)",
+        "nontrivial": nt_gates,
+        "explanation": "theorems are over all finite event sequences; the correspondence ties the step function to the Go ProcessBlock/Pass methods",
+        "assumptions": ["the wrapped handler returns nil", "events given to irreversible gates carry *forkable.ForkableObject"],
+    },
     "C14": {
         "suites": [("cursor", 4000, 80000)],
         "props": ["C14"],
